@@ -183,6 +183,10 @@ def malformed(rng, payload, fill):
     yield 'unarmored-character', [ais.sentence('AIVDM', 1, 1, None, 'A', payload[:3] + 'z' + payload[4:], fill)]
     yield 'non-printable-character', [ais.sentence('AIVDM', 1, 1, None, 'A', payload[:3].encode() + b'\x7f' + payload[4:].encode(), fill)]
     yield 'str-non-ascii', ['!AIVDM,1,1,,A,' + payload[:3] + '\u00e9' + payload[4:] + ',0*00']
+    # a non-ASCII character where it does no harm (inside the tag block): the UTF-8 encoding of str arguments shows in
+    # the tag block bytes of the delivered sentence
+    yield 'str-non-ascii-tag', ['\\c:1,t:caf\u00e9*00\\' + one[0].decode()]
+    yield 'leading-blank', [b' \r\n' + one[0]]
 
 
 def run(ctx, n_payloads=None, cut_budget=None):
